@@ -3,7 +3,7 @@ and of boundary objects for points of their own boundary sampler and for lattice
 import itertools, torch
 import torchphysics as tp
 from torchphysics.problem.spaces import Points, Space
-from .common import main, watched
+from .common import main, watched, pick
 from .. import universe as U
 
 OFFS = [1, 3, 5, 7, 9, 11, 13, 15]
@@ -87,7 +87,7 @@ def run_one(s):
     # the same 2-D expression built over the product space x1 * x2, queried with the columns in the order (x2, x1): columns are
     # selected by NAME everywhere
     tr["bits3"], tr["shape3_ok"], tr["exc3"] = [], True, ""
-    if U.space_vars(e) == ["x"] and tid % 2 == 0:
+    if U.space_vars(e) == ["x"] and pick(tid, 2, 1) == 0:
         def split_query():
             d3 = U.build_split(e)
             t = pts.as_tensor
@@ -101,7 +101,7 @@ def run_one(s):
     # the same expression 256 times larger (lengths, positions, parameter values), queried at the scaled points: membership does
     # not depend on the size of the shape
     tr["bits4"], tr["shape4_ok"], tr["exc4"] = [], True, ""
-    if tid % 2 == 1:
+    if pick(tid, 2, 2) == 1:
         KS = 256.0
 
         def scaled_query():
@@ -117,7 +117,7 @@ def run_one(s):
     # history on the SAME Points / parameter objects: the coordinates are overwritten in place (public assignment) and the query
     # is repeated; the answer belongs to the current content
     tr["bits5"], tr["shape5_ok"], tr["exc5"], tr["pts5"] = [], True, "", []
-    if tid % 3 == 0:
+    if pick(tid, 3, 3) == 0:
         coords5 = lattice(e, tid + 1)
         if len(coords5) == len(coords):
             def again():
@@ -182,7 +182,7 @@ def run_one(s):
                 rec["pts"] = cs
             tr["own"].append(rec)
         # the same boundary 256 times larger: it accepts its own samples whatever the size of the shape (points scaled back for the oracle)
-        if tid % 2 == 0:
+        if pick(tid, 2, 4) == 0:
             KS = 256.0
             row = rows_for(names, 1, tid + 5)[0]
             rec = {"kind": "random-scaled", "exc": "", "pts": [], "bits": []}
